@@ -894,7 +894,20 @@ pub fn panic_signature(backend: Backend, msg: &str, location: &str) -> String {
         None
     };
     let site = format!("{}{}", krate.unwrap_or_default(), func.unwrap_or(stem));
-    let mut sig = format!("{}:panic:{}:{}", backend.name(), site, normalise_message(msg));
+    let mut message = normalise_message(msg);
+    // a message formatted from run-time data (`todo!("{:?}", ty)`): the source line identifies the defect, the
+    // payload would split one defect into many signatures
+    if let Some(s) = &snippet {
+        let formatted = s.contains("!(\"") && s.find('{').map(|i| s[i..].contains('}')).unwrap_or(false);
+        if formatted {
+            let std_prefix = ["not yet implemented", "not implemented", "internal error: entered unreachable code"].iter().find(|p| message.starts_with(**p));
+            message = match std_prefix {
+                Some(p) => p.to_string(),
+                None => message.split(':').next().unwrap_or("").trim().to_string(),
+            };
+        }
+    }
+    let mut sig = format!("{}:panic:{}:{}", backend.name(), site, message);
     if let Some(s) = snippet {
         sig.push(':');
         sig.push_str(&s);
